@@ -2,7 +2,7 @@
 Require Extraction.
 Require Import ExtrOcamlBasic.
 From Coq Require Import ZArith NArith.
-From Astisub Require Import Kit.Base Kit.Str Kit.Float64 Kit.Scan Kit.Html Model.Ops Model.Dur Model.Lin Model.Srt Model.Files Model.Vtt Model.Conv Kit.Float64x Kit.Xml Model.Ttml.
+From Astisub Require Import Kit.Base Kit.Str Kit.Float64 Kit.Scan Kit.Html Model.Ops Model.Dur Model.Lin Model.Srt Model.Files Model.Vtt Model.Conv Kit.Float64x Kit.Xml Model.Ttml Kit.XmlParse.
 Extraction "model.ml"
   Z.add Z.mul Z.opp Z.div Z.modulo Z.of_N Z.to_N N.add N.mul
   order merge add_dur force_duration fragment unfragment optimize remove_styling item_text
@@ -14,4 +14,4 @@ Extraction "model.ml"
   reader_for writer_for
   read_vtt write_vtt parse_text_vtt vtt_line_simple
   convert_srt_vtt convert_vtt_srt
-  ttml_time time_simple read_ttml doc_time_simple write_ttml write_ttml_bytes indent_doc format_ttml.
+  ttml_time time_simple read_ttml doc_time_simple write_ttml write_ttml_bytes indent_doc format_ttml xml_parse.
